@@ -72,6 +72,7 @@ type FuncContract struct {
 	Pos      token.Pos
 	File     *ast.File
 	Lemmas   bool
+	Replay   []string
 }
 
 type CallbackContract struct {
@@ -159,6 +160,8 @@ func parseContracts(fset *token.FileSet, f *ast.File, pkgPath string) ([]*FuncCo
 				}
 			case "maypanic":
 				cur.MayPanic = true
+			case "replay":
+				cur.Replay = append(cur.Replay, rest)
 			case "lemma":
 				cur.Lemmas = true
 			case "old":
